@@ -894,7 +894,7 @@ func cacheViewFromFile(
 		// registered in the cache with CreateFilePath(), instead of SearchFilePath().
 		p, e := CreateFilePath(fileIdentifier, scope.Tx.Flags.Repository)
 		if e != nil {
-			return "", nil, false, NewIOError(fileIdentifier, err.Error())
+			return "", nil, false, NewIOError(fileIdentifier, e.Error())
 		}
 		if v, ok := scope.Tx.CachedViews.Load(strings.ToUpper(p)); ok {
 			return p, v, true, nil
